@@ -265,6 +265,10 @@ func cmdCheck(args []string) {
 			writeReplay(rp, id, in, &f)
 			ok, detail := nativeReplay(work, rp)
 			replays++
+			if !ok && f.Kind == "unwind" {
+				inconclusive = append(inconclusive, fmt.Sprintf("%s: %s at %s (the native run terminates: the bound is too small for this loop; %s)", hname, f.Label, f.Pos, detail))
+				continue
+			}
 			if !ok {
 				inconclusive = append(inconclusive, fmt.Sprintf("%s: solver counterexample for %s %q at %s did not reproduce natively (%s); replay=%s", hname, f.Kind, f.Label, f.Pos, detail, rp))
 				continue
@@ -517,7 +521,7 @@ func TestVFReplay(t *testing.T) {
 	oj, _ := json.Marshal(map[string]interface{}{"Replace": repl})
 	ovPath := filepath.Join(dir, "overlay.json")
 	os.WriteFile(ovPath, oj, 0o644)
-	cmd := exec.Command("go", "test", "-v", "-vet=off", "-count=1", "-run", "^TestVFReplay$", "-timeout", "120s", "-overlay", ovPath, "./"+rf.Pkg)
+	cmd := exec.Command("go", "test", "-v", "-vet=off", "-count=1", "-run", "^TestVFReplay$", "-timeout", "60s", "-overlay", ovPath, "./"+rf.Pkg)
 	cmd.Dir = repoDir
 	cmd.Env = append(os.Environ(), "VF_REPLAY="+replayPath, "VF_HARNESS="+rf.Harness, "GOFLAGS=-mod=mod")
 	if rf.Synctest {
@@ -546,6 +550,10 @@ func TestVFReplay(t *testing.T) {
 	case strings.HasPrefix(rf.Kind, "panic:"):
 		if strings.HasPrefix(outcome, "panic") {
 			return true, outcome
+		}
+	case rf.Kind == "unwind":
+		if strings.Contains(txt, "test timed out") {
+			return true, "native run does not terminate (test timed out)"
 		}
 	case rf.Kind == "deadlock":
 		if strings.Contains(txt, "deadlock") || strings.Contains(txt, "test timed out") {
